@@ -272,7 +272,7 @@ fn check_list(text: &str) -> Verdict {
             return Verdict::Bad { what: "argument tokens differ".into(), expected: show(&t_elems), observed: show(&d_elems) };
         }
         // lexically identifiers but not path expressions (`_` is not even a valid argument expression): don't care
-        let kw_lit = t.1.len() == 1 && (t.1[0] == "true" || t.1[0] == "false" || t.1[0] == "_");
+        let kw_lit = t.1.len() == 1 && syn::parse_str::<syn::Ident>(&t.1[0]).is_err() && t.1[0].chars().all(|c| c.is_alphanumeric() || c == '_');
         if t.2 != dd.2 && !kw_lit {
             return Verdict::Bad {
                 what: "single-identifier classification differs".into(),
@@ -306,6 +306,13 @@ fn through_attribute(text: &str, n_truth: usize, has_alias: bool) -> Option<(Str
 
 fn attr_check(src: &str, text: &str) -> Option<(String, String, String)> {
     let item: syn::DeriveInput = syn::parse_str(src).ok()?;
+    // the sentinel extends the list: a split difference that only shows with it is reported as such (so that the
+    // defect models of `sig_for` apply to it)
+    if let Some(args) = src.split_once("\", ").and_then(|(_, r)| r.rsplit_once(")] struct")).map(|(a, _)| a.to_string()) {
+        if let Verdict::Bad { what, expected, observed } = check_list(&args) {
+            return Some((format!("{what} (list extended by the sentinel argument): `{args}`"), expected, observed));
+        }
+    }
     match dm::expand(Derive::by_name("Display").unwrap(), &item) {
         Outcome::Ok(ts) => {
             let impls = tok::impls(&ts).ok();
@@ -364,6 +371,10 @@ fn sig_for(what: &str, text: &str, _expected: &str, _observed: &str) -> Option<S
     if !(what.contains("different number") || what.contains("argument tokens differ") || what.contains("rejected by the derive's splitter")) {
         return None;
     }
+    let text: &str = match what.split_once("(list extended by the sentinel argument): `") {
+        Some((_, r)) => r.trim_end_matches('`'),
+        None => text,
+    };
     let ts = text.parse::<TokenStream>().ok()?;
     let truth = Punctuated::<TruthArg, Token![,]>::parse_terminated.parse2(ts).ok()?;
     let rerender = |f: &mut dyn FnMut(&mut syn::Expr)| -> String {
